@@ -54,8 +54,10 @@ func relayStreamCase(c *Ctx, idx int) Case {
 			}
 			out = []refcodec.Frame{f}
 		case "hdrflag":
+			// the receiver accepts end flags 0..10 and treats every non-zero one as end of message:
+			// rewriting 1 to 2..10 leaves the parse unchanged, only the transcript differs
 			f := frames[0]
-			f.Flag ^= 1
+			f.Flag = pick(c, []byte{f.Flag ^ 1, 2, 3, 7, 10})
 			out = []refcodec.Frame{f}
 		case "insert":
 			out = []refcodec.Frame{{Flag: byte(c.Rng.Intn(2)), Len: 0, Body: nil}, frames[0]}
@@ -284,7 +286,7 @@ func relayRun(sh relayShape, cache *security.SessionCache, ed *relayEdit) (hsOK 
 }
 
 func runRelay(c *Ctx) error {
-	c.Res.Rule = "part 1 (stream level, compared with the model): 1-4 cleartext frames in either direction each edited in transit (payload bit flip, end-flag flip, empty frame inserted before/after, frame dropped, split in two, byte appended), then keys installed and one protected message each way; part 2 (whole handshakes through a byte-editing relay, property oracle): shapes {no authentication, CLAIMTOBE, resumed session} x every frame of the handshake in each direction x (every byte offset x xor 0x01/0x80 in thorough, every 2nd-5th offset in quick) plus empty-frame insertion, frame removal and frame splitting; distinct by (shape, edit); non-trivial = the edit lands in a frame exchanged before the application data"
+	c.Res.Rule = "part 1 (stream level, compared with the model): 1-4 cleartext frames in either direction each edited in transit (payload bit flip, end flag flipped or rewritten to another accepted value 2..10, empty frame inserted before/after, frame dropped, split in two, byte appended), then keys installed and one protected message each way; part 2 (whole handshakes through a byte-editing relay, property oracle): shapes {no authentication, CLAIMTOBE, resumed session} x every frame of the handshake in each direction x (every byte offset x xor 0x01/0x80 in thorough, every 2nd-5th offset in quick; the end-flag byte also rewritten to 2, 3 and 10) plus empty-frame insertion, frame removal and frame splitting; distinct by (shape, edit); non-trivial = the edit lands in a frame exchanged before the application data"
 	var cases []Case
 	n := c.Pick(600, 8000)
 	for i := 0; i < n; i++ {
@@ -326,6 +328,9 @@ func runRelay(c *Ctx) error {
 					vals := []byte{0x01}
 					if c.Thorough() || off < 5 {
 						vals = []byte{0x01, 0x80}
+					}
+					if off == 0 {
+						vals = []byte{0x01, 0x80, 0x02, 0x03, 0x0b} // end flag 1 -> 0, 0x81, 3, 2, 10
 					}
 					for _, v := range vals {
 						edits = append(edits, relayEdit{dir: dir, frame: f, kind: "xor", off: off, val: v})
